@@ -332,6 +332,9 @@ func c12Gen(t *rapid.T) c12Case {
 	if c.Pair.EA.Scale == 0 && rapid.IntRange(0, 5).Draw(t, "faroff") == 0 {
 		// far from the origin, still exactly representable: the predicates only ever need coordinate
 		// differences, so absolute ordinates near 2^52 must not change an answer
+		// (not 2^52 and beyond: there the midpoint of two lattice points is no longer a double, which is outside the
+		// property's domain - "small enough that the library's float arithmetic is exact" - and the library's
+		// segment-in-ring analysis, which looks at the middle of a piece between two boundary contacts, has no exact answer)
 		off := []int64{1 << 30, 1 << 40, 1 << 50, (1 << 52) - (1 << 21), -(1 << 30), -(1 << 45), -((1 << 52) - (1 << 21)), 0}
 		c.DX = rapid.SampledFrom(off).Draw(t, "fardx")
 		c.DY = rapid.SampledFrom(off).Draw(t, "fardy")
